@@ -182,10 +182,13 @@ class Check:
         self.assumptions = []
         self.inconclusive = []
         self._distinct = set()
+        self._samples_seen = set()
     def count(self, key, n=1): self.cov[key] = self.cov.get(key, 0) + n
     def distinct(self, h): self._distinct.add(h)
     def sample(self, s, cap=6):
-        if len(self.cov['samples']) < cap: self.cov['samples'].append(s)
+        k = json.dumps(s, sort_keys=True, default=str)
+        if len(self.cov['samples']) < cap and k not in self._samples_seen:
+            self._samples_seen.add(k); self.cov['samples'].append(s)
     def violation(self, keys, summary, replay):
         """keys: list of known-finding keys this violation would match (most specific first)"""
         m = self.findings.match(self.prop, set(keys))
